@@ -198,7 +198,7 @@ func ruleGateE(w *World, r *Report) {
 
 // GATE-UNTRUSTED: the ungated exported mutators are called only from the allow-listed trusted sites.
 func ruleGateUntrusted(w *World, r *Report) {
-	r.Rule("GATE-UNTRUSTED", "who-may-call: Location.SetProp / RemProp (ungated by design) are called only from sys.markLocationCreated", 2)
+	r.Rule("GATE-UNTRUSTED", "who-may-call: Location.SetProp / RemProp (ungated by design) are called only from sys.markLocationCreated, and there only under the success of that location's CheckWrite and Enabled (control dependence): the caller is reachable from outside (System.CreateLocation, /api/loc/admin/create), and a location can be protected or switched off before it is `created`", 2)
 	allowed := map[string]bool{"sys.markLocationCreated": true}
 	for _, name := range []string{"SetProp", "RemProp"} {
 		m := w.TryMethod("core", "Location", name)
@@ -215,7 +215,26 @@ func ruleGateUntrusted(w *World, r *Report) {
 			n++
 			key := "callee=core.(*Location)." + name + " caller=" + fname(c)
 			if allowed[fname(outermost(c))] {
-				r.ok("GATE-UNTRUSTED", key, w.PosOf(e.Site), "allow-listed trusted caller")
+				// the trusted caller is reachable from outside (CreateLocation, /api/loc/admin/create): it asks the
+				// location's own gates before it uses the ungated mutator
+				a := newLocAnchors(w)
+				site := e.Site.(ssa.Instruction)
+				cc := e.Site.Common()
+				recv := cc.Args[0]
+				gated := func(method, failWhen string) bool {
+					return controlDependsOn(c, site, func(v ssa.Value) bool {
+						call, ok := v.(*ssa.Call)
+						if !ok || !a.isLocMethod(call.Common(), method) || len(call.Common().Args) == 0 {
+							return false
+						}
+						return valueIs(call.Common().Args[0], recv)
+					})
+				}
+				if gated("CheckWrite", "nonnil") && gated("Enabled", "false") {
+					r.ok("GATE-UNTRUSTED", key, w.PosOf(e.Site), "allow-listed trusted caller, which passes CheckWrite and Enabled of that location first")
+				} else {
+					r.violation("GATE-UNTRUSTED", key, w.PosOf(e.Site), "the allow-listed caller uses the ungated mutator without having passed the location's CheckWrite and Enabled: CreateLocation (reachable as /api/loc/admin/create) writes the creation marker into a write-protected or disabled location for a caller without the key")
+				}
 			} else {
 				r.violation("GATE-UNTRUSTED", key, w.PosOf(e.Site), "ungated mutator called from a site that is not allow-listed")
 			}
